@@ -243,7 +243,14 @@ fn main() {
                 "C08" => replay_ops::<Tok>(&ctx, &ops, &mut cov, true, &mut NoHook),
                 "C14" => replay_ops::<Txt>(&ctx, &ops, &mut cov, false, &mut PrettyHook { shapes: HashSet::new() }),
                 #[cfg(feature = "deser")]
-                "C16" => replay_ops::<Plain>(&ctx, &ops, &mut cov, false, &mut ixv::special::SerdeHook { shadows: Vec::new() }),
+                "C16" => {
+                    let a = replay_ops::<Plain>(&ctx, &ops, &mut cov, false, &mut ixv::special::SerdeHook { shadows: Vec::new() });
+                    if a.is_some() {
+                        a
+                    } else {
+                        replay_ops::<u64>(&ctx, &ops, &mut cov, false, &mut ixv::special::SerdeHook { shadows: Vec::new() })
+                    }
+                }
                 _ => replay_ops::<Plain>(&ctx, &ops, &mut cov, false, &mut NoHook),
             }
         };
@@ -291,15 +298,16 @@ fn main() {
             }
         }
     }
+    let offset: u64 = arg(&args, "--offset").and_then(|s| s.parse().ok()).unwrap_or(0);
     for i in 0..pl.w1_large {
-        items.push(Item::W1(Size::Large, i));
+        items.push(Item::W1(Size::Large, i + offset));
     }
     for (s, c, t) in &pl.w3 {
         items.push(Item::W3(*s, *c, *t));
     }
     // interleave the many small histories behind the few long items
     for i in 0..pl.w1_small {
-        items.push(Item::W1(Size::Small, i));
+        items.push(Item::W1(Size::Small, i + offset));
     }
     for i in 0..pl.c13 {
         items.push(Item::C13(i));
@@ -358,7 +366,15 @@ fn main() {
                                     o
                                 }
                                 #[cfg(feature = "deser")]
-                                "C16" => run_w1::<Plain>(&ctx, &cfg, *idx, &mut cov, &mut ixv::special::SerdeHook { shadows: Vec::new() }),
+                                "C16" => {
+                                    // struct payload and bare-number payload alternate (their serialised forms differ in kind)
+                                    if idx % 2 == 0 {
+                                        run_w1::<Plain>(&ctx, &cfg, *idx, &mut cov, &mut ixv::special::SerdeHook { shadows: Vec::new() })
+                                    } else {
+                                        cov.bump("histories_with_bare_integer_payload");
+                                        run_w1::<u64>(&ctx, &cfg, *idx, &mut cov, &mut ixv::special::SerdeHook { shadows: Vec::new() })
+                                    }
+                                }
                                 _ => run_w1::<Plain>(&ctx, &cfg, *idx, &mut cov, &mut NoHook),
                             };
                             if want_digests {
